@@ -341,7 +341,7 @@ AddScope(kind, par, name, one, blk, role) ==
   /\ one => kind \in {"function", "class"}
   /\ blk \in Blocks
   /\ (blk # "none") => (kind \in {"function", "class"} /\ ~one)
-  /\ role \in Roles
+  /\ role \in (IF kind = "function" THEN Roles ELSE {"plain"})
   \* __init__ / __call__: an unnamed def directly in an unnamed class, one of each per class
   /\ (role # "plain") =>
         /\ kind = "function" /\ name = NoName /\ ~one
@@ -468,7 +468,7 @@ RenameModule(new) ==
   /\ UNCHANGED <<scopes, ev, lib>>
 
 AnyAddScope == \E k \in Kinds, p \in 1..Len(scopes), nm \in ScopeNames \cup {NoName}, one \in OneLiners,
-                    b \in Blocks, ro \in Roles :
+                    b \in Blocks, ro \in Roles \cup {"plain"} :
                  AddScope(k, p, nm, one, b, ro)
 AnyAddEvent == \E s \in 1..Len(scopes), op \in Ops, n \in Names : AddEvent(s, op, n)
 AnyAddLibEvent == \E op \in Ops, n \in Names : AddLibEvent(op, n)
